@@ -186,7 +186,9 @@ pub fn run(em: &mut Emit, thorough: bool, seed: u64) {
                      "l.map(x, true, x)", "l.map(x, [x, x])", "l.exists(x, x == 1u)", "l.map(x, x + 1u)", "l.map(x, x + 1)",
                      "l.map(x, string(x))", "l.filter(x, x in l)", "l.map(x, l[x])", "l.all(x, x >= 1u)", "l.filter(x, x > 0)",
                      "l.map(x, x == 18446744073709551615u)", "l.map(x, x == -1)", "l.map(x, {x: 1})", "l.map(x, l.map(y, [y, x]))",
-                     "l.filter(x, l.exists(y, y == x))", "l.map(x, idf(x))", "l.exists_one(x, x == 2)", "l.map(x, x > 1, x)"];
+                     "l.filter(x, l.exists(y, y == x))", "l.map(x, idf(x))", "l.exists_one(x, x == 2)", "l.map(x, x > 1, x)",
+                     "l.map(x, x / (x + x))", "l.map(x, 1.0 / x)", "l.all(x, x + 1 > 0)", "l.map(x, l.map(y, x + y))", "l.filter(x, x + x == x + x)",
+                     "l.exists_one(x, x + 1 == 2)", "l.map(x, [x].map(y, y + y))"];
     for _ in 0..(if thorough { 3000 } else { 250 }) {
         let n = rng.below(5);
         let mut m = HashMap::new();
@@ -198,7 +200,11 @@ pub fn run(em: &mut Emit, thorough: bool, seed: u64) {
             emit_program(em, p, &sp, "nt=1;kind=c10-map-keys");
         }
     }
-    for l in [vec![], vec![Value::Int(1)], vec![Value::Int(0), Value::UInt(2), Value::Bool(true)]] {
+    for l in [vec![], vec![Value::Int(1)], vec![Value::Int(0), Value::UInt(2), Value::Bool(true)],
+              vec![Value::Int(1), Value::UInt(1), Value::Float(1.0), Value::Int(1)], vec![Value::Float(0.0), Value::Float(-0.0), Value::Float(0.0)],
+              vec![Value::Int(2), Value::Float(2.0)], vec![Value::UInt(0), Value::Int(0), Value::Int(0)],
+              vec![Value::List(Arc::new(vec![Value::Int(1)])), Value::List(Arc::new(vec![Value::Float(1.0)]))],
+              vec![Value::Null, Value::Null, Value::Int(1)]] {
         let sp = spec(vec![("l".into(), Value::List(Arc::new(l)))]);
         for p in &key_progs {
             emit_program(em, p, &sp, "nt=1;kind=c10-const-body");
